@@ -44,6 +44,8 @@ def cases(tier, seed):
         n = len(a) ** (g[0] * g[1])
         for b in range(0, n, BLOCK):
             yield "islands", dict(shape=list(g), alphabet=a, start=b, stop=min(n, b + BLOCK))
+    for rot, arm, off, level in itertools.product(range(4), (8, 11), (0, 1, 2), (4.2, 4.9)):
+        yield "components", dict(rot=rot, arm=arm, off=off, level=level)
 
 
 def realise(snr, variant):
@@ -137,10 +139,56 @@ def ev_islands(case, ctx):
 
 
 def ev_components(case, ctx):
-    # decided in checks that run the full finder (C03/C11 scenes share the same island oracle); here a
-    # slice of images with a faint group inside a bright island's bounding box
+    """no reported component originates from a pixel group that fails the rule: a faint (flood-level only) L-shaped
+    group whose bounding box contains a bright source, run through the full finder"""
+    import os
     from checks import scenes
-    scenes.c02_component_origin(case, ctx)
+    from mc.oracles import skygauss
+    from mc.oracles import wcs_zenithal as wz
+    rot, arm, off, level = case["rot"], case["arm"], case["off"], case["level"]
+    shape = (48, 52)
+    hdr = scenes.scene_header(shape)
+    rms = 0.01
+    img = np.zeros(shape)
+    r0, c0 = 14, 16
+    L = [(r0 + k, c0) for k in range(arm)] + [(r0 + arm - 1, c0 + k) for k in range(arm)]
+    for _ in range(rot):
+        L = [(c, shape[0] - 1 - r) for r, c in L]
+        L = [(r, c) for r, c in L]
+    L = [(int(np.clip(r, 1, shape[0] - 2)), int(np.clip(c, 1, shape[1] - 2))) for r, c in L]
+    rr = [p[0] for p in L]
+    cc = [p[1] for p in L]
+    # the bright source sits inside the L's bounding box, in the corner away from both arms
+    corner = {0: (min(rr) + 1, max(cc) - 1), 1: (min(rr) + 1, min(cc) + 1), 2: (max(rr) - 1, min(cc) + 1), 3: (max(rr) - 1, max(cc) - 1)}[rot % 4]
+    src = skygauss.source_at_pixel(hdr, corner[0] + 0.3 * off, corner[1] - 0.2 * off, 1.0, 3.2, 2.6, 30.0)
+    img += skygauss.render(hdr, shape, [src])
+    for p in L:
+        img[p] = max(img[p], level * rms)
+    f = os.path.join(os.environ["VERIF_SCRATCH"], "c02c.fits")
+    scenes.write_image(f, hdr, img)
+    img32 = np.asarray(img, dtype=np.float32).astype(float)
+    ref = floodfill.islands(img32, np.zeros(shape), np.full(shape, rms), 5.0, 4.0)
+    allref = floodfill.islands(img32, np.zeros(shape), np.full(shape, rms), -1.0, 4.0)   # every flood-level group
+    sig = "components:rot=%d,arm=%d,off=%d,level=%g" % (rot, arm, off, level)
+    ctx.count("finder_runs")
+    if len(allref) > len(ref):
+        ctx.nontrivial_n(1)       # there is a group that fails the seed rule
+    try:
+        out = scenes.finder().find_sources_in_image(f, rms=rms, bkg=0.0, cores=1, docov=False, innerclip=5, outerclip=4)
+    except Exception as e:
+        ctx.violation("finder raised %r (%s)" % (e, sig), "raise|" + sig)
+        return
+    ctx.outcome("components=%d,islands=%d,groups=%d" % (len(out), len(ref), len(allref)))
+    for s_ in out:
+        x, y = wz.sky2pix(hdr, s_.ra, s_.dec)
+        r, c = float(y) - 1, float(x) - 1
+        ok = any(any(abs(r - p[0]) <= 1.5 and abs(c - p[1]) <= 1.5 for p in pix) for pix, box in ref)
+        if not ok:
+            ctx.violation("component at pixel (%.2f, %.2f), peak %.4g, does not belong to any pixel group that satisfies the seed/flood "
+                          "rule (%d valid islands) (%s)" % (r, c, s_.peak_flux, len(ref), sig), "component_origin|" + sig)
+    if len(set(s_.island for s_ in out)) > len(ref):
+        ctx.violation("%d islands produced components, only %d pixel groups satisfy the rule (%s)" % (len(set(s_.island for s_ in out)), len(ref), sig),
+                      "component_island_count|" + sig)
 
 
 def evaluate(clause, case, ctx):
